@@ -1422,7 +1422,7 @@ pub fn world_b_spoof_long(property: &str, scenario: &str, seed: u64, run: u64, _
 /// C09, reachable peer: a clean link on which only disconnect acknowledgements are lost for a few
 /// seconds; the call may come within two seconds of the connection's SYN. The retries must end
 /// in Disconnect on both sides.
-fn world_b_disconnect_reachable(property: &str, scenario: &str, seed: u64, run: u64) -> Plan {
+fn world_b_disconnect_reachable(property: &str, scenario: &str, seed: u64, run: u64, short_timeouts: bool) -> Plan {
     let mut r = Rng::keyed(&[seed, crate::rng::str_key(property), crate::rng::str_key(scenario), run, 0xea51]);
     let mut plan = Plan::new(property, scenario, seed, run);
     plan.fate_seed = Some(key(&[seed, run, 0xfa7e]));
@@ -1449,8 +1449,24 @@ fn world_b_disconnect_reachable(property: &str, scenario: &str, seed: u64, run: 
         t_create = t_gone + r.range(200_000, 6_000_000);
         plan.push(t_create, 1, Op::Create { ep: c });
     }
-    let t_call = if second_life { t_create + r.range(15_000_000, 26_000_000) } else { t_create + *r.pick(&[300_000u64, 800_000, 1_500_000, 1_900_000, 2_500_000, 6_000_000]) };
+    let mut t_call = if second_life { t_create + r.range(15_000_000, 26_000_000) } else { t_create + *r.pick(&[300_000u64, 800_000, 1_500_000, 1_900_000, 2_500_000, 6_000_000]) };
     let caller_is_client = r.chance(0.6);
+    if short_timeouts && !second_life {
+        // (runs added later) silence timeouts of 3-15 s, chosen per side, instead of one minute:
+        // nothing about the disconnect exchange may depend on them - a side that has closed
+        // answers repeated requests for as long as the other side may repeat them. The call
+        // comes early, so that the idle connection cannot time out before it (and not in a second
+        // life, whose call comes 15-26 s after the handshake)
+        let mut rs = Rng::keyed(&[seed, run, 0x5407_7]);
+        for e in plan.endpoints.iter_mut() {
+            let to = *rs.pick(&[3000u64, 4000, 5000, 8000, 15_000]);
+            match &mut e.kind {
+                EndpointKind::Client { cfg, .. } | EndpointKind::Server { cfg, .. } => cfg.active_timeout_ms = to,
+                _ => (),
+            }
+        }
+        t_call = t_create + *rs.pick(&[300_000u64, 800_000, 1_500_000, 1_900_000]);
+    }
     let (caller, caller_to) = if caller_is_client { (c, None) } else { (0usize, Some(c)) };
     plan.push(t_call, 0x6000_0000, if r.chance(0.5) { Op::Disconnect { ep: caller, to: caller_to } } else { Op::DisconnectNow { ep: caller, to: caller_to } });
     let mut lossy = clean_rule(latency);
@@ -1492,7 +1508,10 @@ fn world_b_disconnect_reachable(property: &str, scenario: &str, seed: u64, run: 
 
 pub fn world_b_disconnect(property: &str, scenario: &str, seed: u64, run: u64, thorough: bool) -> Plan {
     if run % 7 == 3 {
-        return world_b_disconnect_reachable(property, scenario, seed, run);
+        return world_b_disconnect_reachable(property, scenario, seed, run, false);
+    }
+    if run >= 8000 && run % 2 == 0 {
+        return world_b_disconnect_reachable(property, scenario, seed, run, true);
     }
     let mut r = Rng::keyed(&[seed, crate::rng::str_key(property), crate::rng::str_key(scenario), run]);
     let mut plan = Plan::new(property, scenario, seed, run);
